@@ -80,6 +80,7 @@ void op_iolog (char **tok, int ntok) ;
 int cmd_routes (void) ;
 /* gsmx.c (C06, GSM) */
 void op_cseek (char **tok, int ntok) ;
+void op_query (char **tok, int ntok) ;		/* harness/query.c: byterate, fdpos */
 /* ledger.c (C16) */
 void op_ledger (char **tok, int ntok) ;
 /* meta.c (C12) */
